@@ -22,7 +22,14 @@ from .enums import (
     Order,
 )
 from .exceptions import CaseException, FunctionException
-from .utils import builder, format_alias_sql, format_quotes, ignore_copy, resolve_is_aggregate
+from .utils import (
+    builder,
+    format_alias_sql,
+    format_identifier,
+    format_quotes,
+    ignore_copy,
+    resolve_is_aggregate,
+)
 
 if TYPE_CHECKING:
     from .queries import QueryBuilder, Selectable, Table
@@ -696,13 +703,13 @@ class Field(Criterion, JSON):
         return hash((self.name, getattr(self, "alias", None), self.table))
 
     def get_sql(self, ctx: SqlContext) -> str:
-        field_sql = format_quotes(self.name, ctx.quote_char)
+        field_sql = format_identifier(self.name, ctx.quote_char)
 
         # Need to add namespace if the table has an alias
         if self.table and (ctx.with_namespace or self.table.alias):
             table_name = self.table.get_table_name()
             field_sql = "{namespace}.{name}".format(
-                namespace=format_quotes(table_name, ctx.quote_char),
+                namespace=format_identifier(table_name, ctx.quote_char),
                 name=field_sql,
             )
 
@@ -718,7 +725,7 @@ class Index(Term):
         self.name = name
 
     def get_sql(self, ctx: SqlContext) -> str:
-        return format_quotes(self.name, ctx.quote_char)
+        return format_identifier(self.name, ctx.quote_char)
 
 
 class Star(Field):
@@ -733,7 +740,7 @@ class Star(Field):
     def get_sql(self, ctx: SqlContext) -> str:
         if self.table and (ctx.with_namespace or self.table.alias):
             namespace = self.table.alias or getattr(self.table, "_table_name")
-            return "{}.*".format(format_quotes(namespace, ctx.quote_char))
+            return "{}.*".format(format_identifier(namespace, ctx.quote_char))
 
         return "*"
 
